@@ -3,6 +3,7 @@ chosen public entry point, on the sync driver or on the SimLoop."""
 from __future__ import annotations
 
 import asyncio
+import functools
 
 from redress import (
     AsyncPolicy,
@@ -33,6 +34,16 @@ def _pick(place: str, policy_obj, call_obj):
     """placement -> (policy-level object, call-level object)"""
     return (policy_obj if place in ("policy", "both") else None,
             call_obj if place in ("call", "both") else None)
+
+
+class _CallableObject:
+    """a hook given as an instance with __call__ (no __name__ / __qualname__)"""
+
+    def __init__(self, fn):
+        self._fn = fn
+
+    def __call__(self, *a, **k):
+        return self._fn(*a, **k)
 
 
 class Built:
@@ -118,9 +129,19 @@ class Built:
         P = AsyncPolicy if is_async else Policy
         RP = AsyncRetryPolicy if is_async else RetryPolicy
 
+        shape = hooks.get("shape", "method")
+
+        def shaped(fn):
+            """the same hook as a bound method, a functools.partial or a callable object"""
+            if shape == "partial":
+                return functools.partial(fn)
+            if shape == "object":
+                return _CallableObject(fn)
+            return fn
+
         self.call_kw = dict(
-            on_metric=env.on_metric if hooks.get("on_metric") else None,
-            on_log=env.on_log if hooks.get("on_log") else None,
+            on_metric=shaped(env.on_metric) if hooks.get("on_metric") else None,
+            on_log=shaped(env.on_log) if hooks.get("on_log") else None,
             operation=hooks.get("operation"),
             abort_if=env.abort_if if hooks.get("abort_if") else None,
             sleep=h_call, before_sleep=b_call, sleeper=s_call,
